@@ -341,6 +341,26 @@ def run(ctx):
             pth, evs = traces.merge(base)
             ctx.events += len(evs)
             files.append(("k-exclusion init=%d actors=%d procs=%d" % (init, nact, procs), pth))
+        # threads of one process opening different names at the same moment
+        nexe = build.driver("drv_sem_names", ["drv_sem_names.c"], variant="default")
+        nprefix = prefix + "_n"
+        names += ["%s_%d" % (nprefix, n) for n in (1, 2, 3)]
+        base = ctx.path("names")
+        cmd = [nexe, base, nprefix, str(150 if ctx.quick else 1500), str(rng.randint(1, 10 ** 6))]
+        rc, out, to = run_driver(cmd, timeout=120)
+        if to or rc != 0:
+            ipcnames.cleanup(names)
+            for f in os.listdir(ctx.rundir):
+                if f.startswith("names."):
+                    os.unlink(ctx.path(f))
+            rc, out, to = run_driver(cmd, timeout=120)
+        if to or rc != 0:
+            ctx.violation("names:%s" % ("stuck" if to else "crash"), "threads creating different names at the same moment did not finish (rc=%s) twice: %s" % (rc, out[-300:]), [])
+        else:
+            pth, evs = traces.merge(base)
+            ctx.events += len(evs)
+            for ci, ch in enumerate(traces.split_at(evs, "Epoch", 6000)):
+                files.append(("concurrent creation of different names", traces.write(ch, base + "_c%d.ndjson" % ci)))
         res = ctx.validate_many("ipc/SemTrace.tla", "SemTrace.cfg", [t for _, t in files], par=6, timeout=900)
         for (sp, tp), (_, ok, matched) in zip(files, res):
             if ok:
